@@ -147,6 +147,16 @@ def cases(tier, seed):
                     yield dict(out=o, target=tpath, tkind=tkind, input=last["input"], wrap=last["wrap"], eval=last["eval"], history=list(hist))
 
 
+    # one call with two (input, output) pairs: a class attribute and a function/method parameter, in both orders, every pair of inputs (the same input fanned out included)
+    for lead in ("plain", "self"):
+        o2 = dict(k=2, n_defaults=1, lead=lead, kwtail=False, decoy=False)
+        fp = "fout" if lead == "plain" else "M.meth"
+        for ta, tb in itertools.product(("Out.x", "Out.y"), (fp + ".a", fp + ".b")):
+            for first, second in ((ta, tb), (tb, ta)):
+                for ia, ib in itertools.product(INPUTS, repeat=2):
+                    yield dict(out=o2, pairs=[dict(input=ia[0], target=first), dict(input=ib[0], target=second)], eval=False, wrap=None)
+
+
 SENT = "__MASKED__"
 
 
@@ -196,6 +206,50 @@ def mask(tree, loc):
             fn.args.kw_defaults[loc[3]] = ast.Name(id=SENT, ctx=ast.Load())
 
 
+def selected_default(tree, loc):
+    """dump of the selected node's own default / value (None when it has none)"""
+    try:
+        if loc[0] == "class":
+            cls = next(n for n in tree.body if isinstance(n, ast.ClassDef) and n.name == "Out")
+            st = cls.body[loc[1]]
+            return ast.dump(st.value) if isinstance(st, ast.AnnAssign) and st.value is not None else None
+        fn = _find_function(tree, list(loc[1]))
+        if loc[2] == "args":
+            off = loc[3] - (len(fn.args.args) - len(fn.args.defaults))
+            return ast.dump(fn.args.defaults[off]) if 0 <= off < len(fn.args.defaults) else None
+        dv = fn.args.kw_defaults[loc[3]] if loc[3] < len(fn.args.kw_defaults) else None
+        return ast.dump(dv) if dv is not None else None
+    except Exception:
+        return "<unreadable>"
+
+
+def input_value(input_src, path):
+    """dump of the value / default the input property carries itself (None when it has none)"""
+    tree = ast.parse(input_src)
+    parts = path.split(".")
+    node = tree
+    for name in parts[:-1]:
+        node = next(n for n in node.body if getattr(n, "name", None) == name)
+    if isinstance(node, ast.ClassDef) or node is tree:
+        st = next((x for x in node.body if isinstance(x, ast.AnnAssign) and getattr(x.target, "id", None) == parts[-1]), None)
+        return ast.dump(st.value) if st is not None and st.value is not None else None
+    args = node.args.args
+    i = next((k for k, a in enumerate(args) if a.arg == parts[-1]), None)
+    if i is None:
+        return None
+    off = i - (len(args) - len(node.args.defaults))
+    return ast.dump(node.args.defaults[off]) if 0 <= off < len(node.args.defaults) else None
+
+
+def check_selected_default(v, before, after, loc, input_src, input_path, **extra):
+    """the text is silent on whether the selected location keeps its own default or takes the input's; it is not silent on values from anywhere else"""
+    own, got = selected_default(before, loc), selected_default(after, loc)
+    # (`None` written out counts as "none": a parameter moved into a class body becomes `name: T = None`)
+    allowed = {own, input_value(input_src, input_path) if input_path else None, None, ast.dump(ast.Constant(value=None))}
+    if got not in allowed:
+        v("selected_default_from_elsewhere", "own default %s, the input's, or none" % own, got, **extra)
+
+
 def norm(tree):
     class N(ast.NodeTransformer):
         def visit_Constant(self, node):
@@ -204,7 +258,77 @@ def norm(tree):
     return ast.dump(N().visit(tree))
 
 
+def run_multi(case):
+    """one sync_properties call with several pairs: the reference replaces every selected node, in the order of the pairs"""
+    import cdd.compound.sync_properties
+
+    o = case["out"]
+    src, fpath, names = output_module(o["k"], o["n_defaults"], o["lead"], o["kwtail"], o.get("decoy", False))
+    pairs = case["pairs"]
+    inps = [next(i for i in INPUTS if i[0] == p["input"]) for p in pairs]
+    ctx = dict(check="sync_properties", pairs=len(pairs), lead=o["lead"], first_target="class_attr" if pairs[0]["target"].startswith("Out.") else "param",
+               same_input=len({p["input"] for p in pairs}) == 1, in_kinds=",".join(i[1] for i in inps))
+    viol = []
+
+    def v(clause, expected, observed, **extra):
+        sig = dict(ctx)
+        sig.update(clause=clause)
+        sig.update(extra)
+        viol.append(dict(sig=sig, expected=expected, observed=observed))
+
+    d = tempfile.mkdtemp(prefix="c13m_")
+    try:
+        ip, op = os.path.join(d, "inp.py"), os.path.join(d, "outp.py")
+        with open(ip, "wt") as f:
+            f.write(INPUT_SRC)
+        with open(op, "wt") as f:
+            f.write(src)
+        try:
+            cdd.compound.sync_properties.sync_properties(input_eval=False, input_filename=ip, input_params=[p["input"] for p in pairs], output_filename=op, output_params=[p["target"] for p in pairs], output_param_wrap=None)
+        except Exception as e:
+            v("raises", "the selected locations are replaced", "%s: %s" % (type(e).__name__, str(e)[:120]), exc=type(e).__name__)
+            return dict(outcome="raises", transitions=1, violations=viol)
+        with open(ip, "rt") as f:
+            if f.read() != INPUT_SRC:
+                v("input_modified", "input file unchanged", "changed")
+        with open(op, "rt") as f:
+            after_src = f.read()
+        try:
+            after = ast.parse(after_src)
+        except SyntaxError as e:
+            v("result_does_not_parse", "valid Python", "SyntaxError: %s" % e)
+            return dict(outcome="syntax-error", transitions=1, violations=viol)
+        before = ast.parse(src)
+        locs = []
+        for p, inp in zip(pairs, inps):
+            # a later pair addresses its target by the name it has *now* (an earlier pair may have renamed a sibling, never this target: the two targets lie in different scopes)
+            locs.append(apply_reference(before, p["target"], inp[2], inp[3]))
+        for (pp, loc) in zip(pairs, locs):
+            check_selected_default(v, before, after, loc, INPUT_SRC, pp["input"], which="first" if pp is pairs[0] else "later")
+        try:
+            for loc in locs:
+                mask(before, loc)
+                mask(after, loc)
+        except Exception as e:
+            v("structure_changed", "same definitions as before", "%s: %s" % (type(e).__name__, e))
+            return dict(outcome="diff", transitions=1, violations=viol)
+        a, b = norm(before), norm(after)
+        if a != b:
+            i = next((k for k, (x, y) in enumerate(zip(a, b)) if x != y), min(len(a), len(b)))
+            import re
+
+            m = re.findall(r"([a-z_]+)=", a[:i])
+            v("ast_differs_from_reference", a[max(0, i - 90): i + 60], b[max(0, i - 90): i + 60], what=m[-1] if m else "?")
+    finally:
+        shutil.rmtree(d, ignore_errors=True)
+    for x in viol:
+        x["detail"] = dict(output_module=src, after=locals().get("after_src"))
+    return dict(outcome="ok" if not viol else "diff", transitions=1, violations=viol)
+
+
 def run(case):
+    if case.get("pairs"):
+        return run_multi(case)
     import cdd.compound.sync_properties
 
     o = case["out"]
@@ -276,6 +400,7 @@ def run(case):
             if case["wrap"]:
                 ann = case["wrap"].format(output_param=ann)
         loc = apply_reference(before, case["target"], new_name, ann)
+        check_selected_default(v, before, after, loc, input_src, None if case["eval"] else case["input"])
         mask(before, loc)
         try:
             mask(after, loc)
@@ -304,7 +429,7 @@ def describe(tier):
         "with/without value, function parameters with/without default; names equal to or different from output names) x wrap template absent/present, "
         "plus --input-eval of a tuple constant for every location; plus a second input module in which every selected name is shadowed by an earlier node of "
         "another kind (module-level annotated variable named like the class attribute; class attribute named like a parameter of a method below it) with "
-        "method parameters as further inputs; histories: every call preceded, in the same process and on the same unmodified input file, by every other call (thorough: by every pair of calls one of which uses a template); decoy output modules also carry class attributes named like the method's parameters; a case = one sync_properties invocation".format(k=3 if tier == "quick" else 4),
+        "method parameters as further inputs; one call with two pairs (a class attribute and a parameter, both orders, every pair of inputs); histories: every call preceded, in the same process and on the same unmodified input file, by every other call (thorough: by every pair of calls one of which uses a template); decoy output modules also carry class attributes named like the method's parameters; a case = one sync_properties invocation".format(k=3 if tier == "quick" else 4),
         bounds=dict(k=3 if tier == "quick" else 4, inputs=[i[0] for i in INPUTS], shadowed_inputs=[i[0] for i in INPUTS + INPUTS_SHADOW], wraps=WRAPS),
         exhaustive=True,
         assumptions=["reference transformer mc/checks/c13.py:apply_reference; the selected node's own default/value is not compared (the text is silent on it)",
